@@ -25,7 +25,7 @@ UNITS = ["m", "nm", "", "s", "T"]
 
 @st.composite
 def xr_case(draw, nmin=1):
-    g = draw(gen.geom(ndim=(1, 4), nmin=nmin, nmax=5, exps=(-9, 3), maxcells=300, units=False))
+    g = draw(gen.geom(ndim=(1, 4), nmin=nmin, nmax=5, exps=(-9, 3), maxcells=300, units=False, aniso=True))
     nd = len(g["n"])
     g["units"] = [draw(st.sampled_from(UNITS)) for _ in range(nd)] if draw(st.booleans()) else None
     k = draw(st.integers(1, 4))
